@@ -51,6 +51,9 @@ def scenarios(tier):
                 out.append((h, role, ph, "app-test-req", 0))
                 out.append((h, role, ph, "inbound-testreq", 0))
                 if ph in (0.0, 0.5):
+                    # a dead peer whose socket also refuses the TestRequest: silent, and the write of the probe fails
+                    for fault in ("reset-once", "reset-always", "pipe-always", "runtime-always"):
+                        out.append((h, role, ph, "silent-write-fails", fault))
                     # the same obligations while a sequence gap is open (the peer's frames arrive numbered ahead)
                     out.append((h, role, ph, "gap:testreq-ahead", 0))
                     out.append((h, role, ph, "gap:answer-ahead", 0))
@@ -207,6 +210,43 @@ async def scenario(acc, clock, sc, cid, rnd=None):
             if s.ep.disconnects != 1 and s.disconnected():
                 s.V("watchdog:on_disconnect-count", f"on_disconnect called {s.ep.disconnects} times")
             check_outstanding(s)
+            return True
+        if kind == "silent-write-fails":
+            exc = {"reset": ConnectionResetError("connection reset by peer"), "pipe": BrokenPipeError("broken pipe"),
+                   "runtime": RuntimeError("transport is closing")}[par.split("-")[0]]
+            once = par.endswith("once")
+            state = {"n": 0, "t": None, "same_t": 0}
+            from vf.sim.net import SpinAbort
+            from vf.sim import endpoint as E_
+
+            async def drain_hook():
+                data = s.ep.vf_tap.items[-1][1] if s.ep.vf_tap.items else b""
+                if b"\x0135=1\x01" in data and (not once or state["n"] == 0):
+                    state["n"] += 1
+                    state["same_t"] = state["same_t"] + 1 if state["t"] == s.clock.now else 0
+                    state["t"] = s.clock.now
+                    if state["same_t"] > 300:
+                        raise SpinAbort(f"{state['same_t']} TestRequests attempted without time passing")
+                    raise exc
+                if not once and state["n"]:
+                    raise exc          # once the socket has refused a write it refuses all of them
+            s.ep.vf_writer.drain_hook = drain_hook
+            t0 = s.last_feed()
+            await run_until(s, 3 * h + 6)
+            acc.oracle("silent:disconnect-time")
+            acc.add("probe_writes_refused", state["n"])
+            fail = E_.task_failure(s.ep)
+            if fail is not None:
+                s.V("watchdog-spins:testrequest-write-failed", f"the heartbeat task busy-loops after a failed TestRequest write: {fail}")
+            elif not state["n"]:
+                s.V("silent:no-testrequest", f"peer silent for {3 * h + 6}s, no TestRequest was attempted")
+            elif not s.disconnected():
+                s.V("silent:not-disconnected:testrequest-write-failed", f"peer silent for {3 * h + 6}s and the TestRequest's write failed ({par}): "
+                    f"state {s.ep.connection_state.name}, {state['n']} refused writes")
+            elif s.tdisc is not None and s.tdisc - t0 > 3 * h + 2 + eps:
+                s.V("silent:disconnect-late", f"disconnected {s.tdisc - t0:.3f}s after the last inbound frame, h={h}")
+            if s.ep.disconnects > 1:
+                s.V("watchdog:on_disconnect-count", f"on_disconnect called {s.ep.disconnects} times")
             return True
         if kind == "periodic":
             p = par
@@ -369,8 +409,10 @@ async def scenario(acc, clock, sc, cid, rnd=None):
             ids = list(HOSTILE_IDS)
             if rnd:
                 rnd.shuffle(ids)
-            for k, tid in enumerate(ids[:6]):
-                await asyncio.sleep(0.4 if h > 1 else 0.15)
+            # every TestRequest is answered, also one that repeats an id seen before (a peer may well number its probes 1,1,1...)
+            seq_ids = ids[:5] + [ids[4], ids[0], ids[0]]
+            for k, tid in enumerate(seq_ids):
+                await asyncio.sleep(0.4 if h > 1 else 0.1)
                 if s.disconnected():
                     break
                 tap0 = len(s.ep.vf_tap)
